@@ -192,6 +192,11 @@ func (x *Exec) loop() {
 			if x.spins > 0 {
 				x.status = StLivelock
 			}
+			if x.horizon {
+				// timers were still pending when the timer-event horizon was reached: the program
+				// might have gone on; inconclusive rather than a deadlock
+				x.status = StSteps
+			}
 		}
 	}
 }
